@@ -119,16 +119,52 @@ impl<'a> MessageParser<'a> {
         let field_content = self.extract_field(&full_tag, false)?;
 
         // Use parse_with_variant for enum fields
-        T::parse_with_variant(&field_content, Some(&variant), Some(base_tag)).map_err(|e| {
+        self.parse_named_variant(&field_content, &variant, base_tag, &full_tag)
+    }
+
+    /// Parse `content` as the option named by the tag it was written under.
+    ///
+    /// The option letter in the message decides the variant: a tag without a letter
+    /// selects the no-letter option, and a value that would be written back under a
+    /// different tag (a letter the field does not have, or content in another option's
+    /// format) is rejected instead of being silently re-labelled.
+    fn parse_named_variant<T: SwiftField>(
+        &self,
+        content: &str,
+        variant: &str,
+        base_tag: &str,
+        full_tag: &str,
+    ) -> Result<T, ParseError> {
+        let invalid = |inner_error: String| {
             ParseError::InvalidFieldFormat(Box::new(InvalidFieldFormatError {
-                field_tag: full_tag,
+                field_tag: full_tag.to_string(),
                 component_name: "field".to_string(),
-                value: field_content,
+                value: content.to_string(),
                 format_spec: "field format".to_string(),
                 position: Some(self.position),
-                inner_error: e.to_string(),
+                inner_error,
             }))
-        })
+        };
+
+        let letter = if variant.is_empty() {
+            None
+        } else {
+            Some(variant)
+        };
+        let parsed = T::parse_with_variant(content, letter, Some(base_tag))
+            .map_err(|e| invalid(e.to_string()))?;
+
+        if !parsed
+            .to_swift_string()
+            .starts_with(&format!(":{}:", full_tag))
+        {
+            return Err(invalid(format!(
+                "content is not a valid option '{}' of field {}",
+                variant, base_tag
+            )));
+        }
+
+        Ok(parsed)
     }
 
     /// Parse an optional field with variant detection
@@ -140,17 +176,8 @@ impl<'a> MessageParser<'a> {
             Some(variant) => {
                 let full_tag = format!("{}{}", base_tag, variant);
                 if let Ok(content) = self.extract_field(&full_tag, true) {
-                    let parsed = T::parse_with_variant(&content, Some(&variant), Some(base_tag))
-                        .map_err(|e| {
-                            ParseError::InvalidFieldFormat(Box::new(InvalidFieldFormatError {
-                                field_tag: full_tag,
-                                component_name: "field".to_string(),
-                                value: content,
-                                format_spec: "field format".to_string(),
-                                position: Some(self.position),
-                                inner_error: e.to_string(),
-                            }))
-                        })?;
+                    let parsed =
+                        self.parse_named_variant(&content, &variant, base_tag, &full_tag)?;
                     Ok(Some(parsed))
                 } else {
                     Ok(None)
